@@ -11,7 +11,8 @@ import vcommon, vbuild, treemodel, packlib, sqfsimg
 from vcommon import Violation, Inconclusive, CaseInfo, Result, Scratch
 
 PROP = "C16"
-QUOTE_BYTES = b" \t\"\\#'*-\r"
+# (everything isspace() knows - space, tab, CR, VT, FF - plus the characters of the quoting rules and of comments / globs / options)
+QUOTE_BYTES = b" \t\"\\#'*-\r\x0b\x0c"
 
 
 @st.composite
